@@ -32,6 +32,7 @@ type G struct {
 	resumed bool
 	condPhase int
 	quiesced  bool
+	sendTicket int // unbuffered send in progress: the deposit number to wait for
 	muN       int
 	counted   bool
 	panicMsg     string // non-empty: a panic is unwinding this goroutine
@@ -48,6 +49,8 @@ type ChanObj struct {
 	buf    []Value
 	cap    int
 	closed bool
+	sent   int // unbuffered channels: values deposited so far / taken so far (a sender proceeds once its value was taken)
+	recvd  int
 }
 
 type State struct {
